@@ -16,7 +16,7 @@ class H(Harness):
             'parameters incl. 0 and 1, bare or as a named instance, alone or in a sequence with a Monitor, both dynamics, scripted random source; '
             'non-trivial = at least 2 compartment changes; distinct by the whole case')
     TRUSTED = ['Coq 8.16.1 kernel incl. vm_compute', 'harness/compart.py (observation of event-function entries, compartments after every event, final attributes)',
-               'harness/evsrc.py: fail-closed translator from the Python ast of the shipped event functions to the programs of Model/EvProg.v (tie A, regenerated on every run; Coq computes and checks the summaries); SIvR and SIR_VariableInfection event functions are not translated']
+               'harness/evsrc.py: fail-closed translator from the Python ast of the shipped event functions to the programs of Model/EvProg.v (tie A, regenerated on every run; Coq computes and checks the summaries); SIvR is outside C08 (it does not call markHit); SIR_VariableInfection reuses SIR.infect / remove']
     ASSUMPTIONS = ['initial occupancies are dyadic so that (1 - p) + p == 1 exactly (the float corner named in DESIGN.md C08 is outside the tie)']
 
     def gen_cases(self, tier, rnd, n):
